@@ -2,3 +2,4 @@ import StirVerif.C05.ProofsAlgebra
 import StirVerif.C05.ProofsTextbook
 import StirVerif.C05.ProofsSetup
 import StirVerif.C05.ProofsDeriv
+import StirVerif.C05.ProofsReuse
